@@ -31,6 +31,7 @@ type Fault struct {
 }
 
 type Engine struct {
+	decoyBuild bool // this run: another parser is built from the shared builder between Build and ParseProgram
 	tier     string
 	node     *jsref.Node
 	nodeErr  error
@@ -250,6 +251,8 @@ func posOffset(text string, p token.Position) (int, bool) {
 	}
 	return start + p.Column, true
 }
+
+var nestOpeners = [][2]string{{"{", "}"}, {"(", ")"}, {"[", "]"}, {"function f(){", "}"}, {"if(a){", "}"}, {"g(", ")"}, {"x=[", "]"}, {"(function(){", "})"}, {"while(a){{", "}}"}, {"{a:", "}"}}
 
 // OddPrefixes: bytes that tools leave at the start of a stored source text.
 var OddPrefixes = []string{"\xEF\xBB\xBF", "\xEF\xBB\xBF// c\n", "\uFEFF\n", "#!/usr/bin/env xjs\n", "\x00", "\u200b", "\u00a0", "\r\n", "\t\v\f ", "/**/", "<!-- x\n", "\xFF\xFE", "\u2028", "\xEF\xBB\xBF\xEF\xBB\xBF"}
@@ -804,13 +807,23 @@ func (e *Engine) sharedBuilder(m xutil.Mode) *sharedC11 {
 }
 
 // checkC11 runs all C11 invariants for one text in one mode; returns violations (deduplicated by caller).
+const decoyText = "(((\n\n\n      let ) = ;\n'unterminated"
+
 func (e *Engine) checkC11(text string, m xutil.Mode, f *Fault, st *kernel.Stats, add func(kind, sig, detail string)) {
 	// pull counter: a pass-through token interceptor (bounded-step liveness). One builder per mode serves
 	// all texts of a run: tools re-parse with the builder they configured once.
 	limit := 4*len(text) + 64
 	sb := e.sharedBuilder(m)
 	sb.pulls, sb.limit = 0, limit
+	// in a quarter of the runs the host builds a second parser from the same builder (for another text) before this
+	// one has run; that parser is only built, never used
+	xutil.AfterBuild = nil
+	if e.decoyBuild {
+		pbb := sb.pb
+		xutil.AfterBuild = func() { _ = pbb.Build(decoyText) }
+	}
 	o := xutil.Parse(sb.pb, text)
+	xutil.AfterBuild = nil
 	st.Inc("c11.parses")
 	// what an earlier parser of this builder reported must still be what it reports now
 	if sb.prev != nil {
@@ -993,6 +1006,10 @@ func neighbours(st *kernel.Stats) {
 func (e *Engine) runC11(ch *kernel.Chooser, st *kernel.Stats) kernel.RunResult {
 	e.shared = [4]*sharedC11{} // fresh builders for every run: a run is a pure function of its tape
 	neighbours(st)
+	e.decoyBuild = ch.Bool(1, 4)
+	if e.decoyBuild {
+		st.Inc("probe.second_parser_built_before_the_first_has_run")
+	}
 	var texts []Fault
 	var base string
 	res := kernel.RunResult{}
@@ -1088,6 +1105,18 @@ func (e *Engine) runC11(ch *kernel.Chooser, st *kernel.Stats) kernel.RunResult {
 					Text: base[:at] + " " + w + " " + base[at:]})
 			}
 		}
+		// deep nests: many simultaneously open brackets, blocks and function bodies, closed or cut off
+		if ch.Bool(1, 2) {
+			o := nestOpeners[ch.Choose(len(nestOpeners))]
+			n := []int{17, 33, 40, 65, 130}[ch.Choose(5)]
+			t := strings.Repeat(o[0], n) + " x " + strings.Repeat(o[1], n)
+			ctx := "nest:closed"
+			if ch.Bool(1, 2) {
+				t = t[:len(strings.Repeat(o[0], n))+3+ch.Choose(len(strings.Repeat(o[1], n))+1)]
+				ctx = "nest:cut"
+			}
+			texts = append(texts, Fault{Kind: "nest", Ctx: ctx, At: 0, Text: t})
+		}
 		// the stored text starts with bytes editors and tools leave there (byte-order marks, a shebang line, invisible
 		// spaces, NUL ...): in front of the valid program and of a few of the faulted texts
 		for i := 0; i < 4; i++ {
@@ -1154,7 +1183,7 @@ func init() {
 		},
 		RequiredProbes: map[string][]string{
 			"C12": {"fault.delete", "fault.unsep", "fault.trunc", "fault.trunc_in_string", "fault.trunc_in_backtick", "fault.trunc_in_bracket", "fault.trunc_in_block", "c12.rejected_ok"},
-			"C11": {"fault.delete", "fault.unsep", "fault.trunc", "fault.byte", "fault.double", "fault.random", "fault.prefix", "c11.error_free", "c11.with_errors", "c11.compiles"},
+			"C11": {"fault.delete", "fault.unsep", "fault.trunc", "fault.byte", "fault.double", "fault.random", "fault.prefix", "fault.nest", "c11.error_free", "c11.with_errors", "c11.compiles"},
 		},
 	})
 }
